@@ -552,6 +552,8 @@ pub fn constructed(rng: &mut Rng, n: usize, out: &mut Vec<Tagged>) {
 /// the shared position stream: corpus first, then playouts from the start and from corpus
 /// positions, then constructed motifs
 pub fn positions(rng: &mut Rng, n: usize) -> Vec<Tagged> {
+    // the positions of the fixed lines come in addition to the `n` asked for
+    let n = n + load_lines().iter().map(|l| l.1.len() + 1).sum::<usize>();
     let mut out = Vec::new();
     let corpus = load_corpus();
     let mut roots = Vec::new();
